@@ -8,12 +8,13 @@ import numpy as np
 from vf import core
 from vf.core import CorrResult, Disagreement, Failure, coq_float, coq_z, coq_list
 from translator import temporal as tr
+from translator import dates as tr_dates
 from . import series_common as sc
 
 ID = "C13"
 PROPS = "props/C13.v"
-GENERATED = [tr.OUT]
-CASE_DEPS = ["lib/CaseUtil.vo", "model/Temporal.vo"]
+GENERATED = [tr.OUT, tr_dates.OUT]
+CASE_DEPS = ["lib/CaseUtil.vo", "model/Temporal.vo", "model/TemporalKw.vo"]
 ALLOWED_AXIOMS = {
     # Coq's classical real numbers (standard library)
     "sig_forall_dec", "sig_not_dec", "functional_extensionality_dep",
@@ -24,12 +25,16 @@ ALLOWED_AXIOMS = {
 TRUSTED = [
     "translator/temporal.py + translator/pyexpr.py (lambdas of series/_temporal.py -> gen/TemporalGen.v)",
     "numpy log/exp/power are black boxes: their values are recorded per run and looked up by the float model",
-    "the loops temporal_change/_cumulate_forward/_cumulate_backward are hand-modelled (model/Temporal.v) on the "
-    "Series model (model/Series.v) and tied by bit-exact correspondence only",
+    "the loops temporal_change/_cumulate_forward/_cumulate_backward are hand-modelled (model/Temporal.v; model/TemporalKw.v for "
+    "keyword shifts of every frequency class incl. daily) on the Series model (model/Series.v) and tied by bit-exact correspondence only",
+    "translator/dates.py (gen/DatesGen.v: the daily create_soy/create_eopy/create_tty fragments and the 'yoy' arm used by model/TemporalKw.v)",
 ]
 ASSUMPTIONS = [
     "theorems are over Coq's real numbers (no rounding); the float model is used only for the correspondence",
-    "keyword shifts soy/eopy/tty are exercised for regular frequencies only (daily keyword shifts belong to C09)",
+    "keyword shifts on DAILY series: the reference day comes from gen/DatesGen.v (DailyPeriod.create_soy/eopy/tty, the 'yoy' arm of "
+    "Period.shift, regenerated from dates.py) over lib/Calendar.v, whose agreement with CPython's datetime is C09's tie; "
+    "ordinals outside 1..3652059 (the code raises) are modelled as an error and not exercised by the correspondence",
+    "C13_kw_cum_forward_inverts carries the explicit premise s_freq c = s_freq x (the change series is not empty)",
 ]
 
 MANIFEST = {
@@ -38,11 +43,14 @@ MANIFEST = {
                   "formulas; the five rate helpers invert/relate them; forward and backward cumulation of diff/diff_log/pct/roc with the "
                   "original series as initial condition reproduce the series for EVERY negative shift, series length, start, number of "
                   "variants (induction over the span on the Series model, proved for every carrier with lawful missing values and "
-                  "instantiated on Coq's reals).  The loops and the Series plumbing are hand-modelled and tied to the code by a "
+                  "instantiated on Coq's reals).  Keyword shifts yoy/soy/eopy/tty for every frequency class, DAILY included: the documented "
+                  "reference day (1 January, 31 December of the previous year, the previous day except on 1 January, 365 days back), the "
+                  "change formulas against these references, the unchanged start-of-year value of diff/roc with tty, and forward "
+                  "cumulation with a keyword shift reproducing the series on any span (any number of leap/common years).  The loops and the Series plumbing are hand-modelled and tied to the code by a "
                   "bit-exact correspondence (IEEE doubles through PrimFloat; numpy log/exp/power recorded as tables).",
     "level_note": "Trusted: Coq kernel + vm_compute; translator/temporal.py; harness; Reals axioms (sig_forall_dec, sig_not_dec, "
                   "functional_extensionality_dep, classic). Modelled not verified: numpy ufuncs (recorded), float rounding "
-                  "(theorems are exact over R), keyword shifts of daily series (C09).",
+                  "(theorems are exact over R); lib/Calendar.v vs CPython datetime (tied by C09).",
 }
 
 CHANGE = ["diff", "adiff", "diff_log", "adiff_log", "roc", "aroc", "pct", "apct"]
@@ -56,6 +64,7 @@ KW = {"yoy": "Yoy", "soy": "Soy", "eopy": "Eopy", "tty": "Tty"}
 
 def translate(ctx):
     tr.run()
+    tr_dates.run()          # gen/DatesGen.v: the daily create_soy/eopy/tty and the "yoy" arm used by model/TemporalKw.v
 
 
 # ------------------------------------------------------------------ generation
@@ -66,7 +75,59 @@ def _pool(rng):
     return vals
 
 
+def _daily_kw_start(rng, n) -> int:
+    """start ordinal of a daily series of n rows that straddles a year boundary (leap and common years)"""
+    import datetime as _dtm
+    y = rng.choice([1999, 2000, 2003, 2004, 2019, 2020, 2023, 2024, 2100, 1900])
+    return _dtm.date(y, 12, 31).toordinal() - rng.randint(-1, max(0, n - 1))
+
+
+def gen_daily_kw_case(rng, pool) -> dict:
+    """change / forward cumulation of a DAILY series with a keyword shift (model/TemporalKw.v)"""
+    long_ = rng.random() < 0.06
+    if rng.random() < 0.6:
+        kind = rng.choice(["diff", "diff_log", "roc", "pct"])
+        s = sc.rand_series_spec(rng, freq=365, pool=pool, positive=kind == "diff_log" or rng.random() < 0.5,
+                                maxlen=12, allow_empty=False, nv=1 if long_ else None)
+        if long_:
+            n = rng.randint(366, 400)
+            s["rows"] = [[float(rng.choice(pool)) if kind != "diff_log" else abs(float(rng.choice(pool))) or 1.0] for _ in range(n)]
+        s["start"] = _daily_kw_start(rng, len(s["rows"]))
+        return {"op": "change", "kind": kind, "by": rng.choice(list(KW)), "s": s, "kw": True}
+    kind = rng.choice(CUM)
+    s = sc.rand_series_spec(rng, freq=365, pool=pool, positive=rng.random() < 0.6, maxlen=10, allow_empty=False)
+    s["start"] = _daily_kw_start(rng, len(s["rows"]))
+    n = len(s["rows"])
+    q = rng.random()
+    if q < 0.3:
+        init = {"kind": "default"}
+    elif q < 0.5:
+        init = {"kind": "scalar", "v": float(rng.choice(pool))}
+    else:
+        x = sc.rand_series_spec(rng, freq=365, nv=rng.choice([1, s["nv"]]), pool=pool, positive=True, maxlen=14,
+                                allow_empty=False)
+        x["start"] = s["start"] + rng.randint(-4, 2)
+        init = {"kind": "series", "x": x}
+    by = rng.choice(["soy", "eopy", "tty", "tty", "yoy"])
+    if rng.random() < 0.4:
+        span = None
+    else:
+        a = s["start"] + rng.randint(-1, n // 2)
+        span = [a, a + rng.randint(0, n), 1]
+    return {"op": "cum", "kind": kind, "by": by, "init": init, "span": span, "s": s, "kw": True}
+
+
 def gen_case(rng, pool) -> dict:
+    r = rng.random()
+    if r < 0.12:
+        return gen_daily_kw_case(rng, pool)
+    c = _gen_case(rng, pool)
+    if isinstance(c.get("by"), str) and rng.random() < 0.5:
+        c["kw"] = True              # regular frequency, evaluated through the all-frequency model of model/TemporalKw.v
+    return c
+
+
+def _gen_case(rng, pool) -> dict:
     r = rng.random()
     if r < 0.45:
         kind = rng.choice(CHANGE)
@@ -228,7 +289,8 @@ def coq_by(by) -> str:
 def coq_case(case: dict) -> str:
     s = sc.coq_series(case["s"])
     if case["op"] == "change":
-        return f"change FA {CHANGE_K[case['kind']]} {coq_by(case['by'])} {s}"
+        fn = "change_kw" if case.get("kw") else "change"
+        return f"{fn} FA {CHANGE_K[case['kind']]} {coq_by(case['by'])} {s}"
     if case["op"] == "conv":
         return f"Ok (convert FA {CONV_K[case['kind']]} {s})"
     init = case["init"]
@@ -240,11 +302,12 @@ def coq_case(case: dict) -> str:
         i = f"(InitSeries FA {sc.coq_series(init['x'])})"
     sp = case["span"]
     spc = "SpanDefault" if sp is None else f"(SpanFromTo {coq_z(sp[0])} {coq_z(sp[1])} {coq_z(sp[2])})"
-    return f"temporal_cumulation FA {CUM_K[case['kind']]} {coq_by(case['by'])} {i} {spc} {s}"
+    fn = "temporal_cumulation_kw" if case.get("kw") else "temporal_cumulation"
+    return f"{fn} FA {CUM_K[case['kind']]} {coq_by(case['by'])} {i} {spc} {s}"
 
 
 HEADER = """From Coq Require Import ZArith List Bool PrimFloat.
-From Verif Require Import lib.Arith lib.Period lib.CaseUtil model.Series model.Temporal.
+From Verif Require Import lib.Arith lib.Period lib.CaseUtil model.Series model.Temporal model.TemporalKw.
 Import ListNotations.
 Open Scope Z_scope.
 Set Printing Width 1000000.
@@ -278,8 +341,16 @@ def correspondence(ctx) -> CorrResult:
     res = CorrResult()
     res.evaluations = n
     keyset = set()
-    dist = {"op": {}, "kind": {}, "errors": {}, "freq": {}, "empty_result": 0}
+    dist = {"op": {}, "kind": {}, "errors": {}, "freq": {}, "empty_result": 0, "daily_keyword": {}, "daily_keyword_nontrivial": 0,
+            "regular_keyword_through_kw_model": 0}
     for c, o in zip(cases, outs):
+        if c.get("kw") and c["s"]["freq"] == 365:
+            k_ = f"{c['op']}:{c['by']}"
+            dist["daily_keyword"][k_] = dist["daily_keyword"].get(k_, 0) + 1
+            if nontrivial(c, o):
+                dist["daily_keyword_nontrivial"] += 1
+        elif c.get("kw"):
+            dist["regular_keyword_through_kw_model"] += 1
         dist["op"][c["op"]] = dist["op"].get(c["op"], 0) + 1
         dist["kind"][c["kind"]] = dist["kind"].get(c["kind"], 0) + 1
         dist["freq"][str(c["s"]["freq"])] = dist["freq"].get(str(c["s"]["freq"]), 0) + 1
@@ -310,7 +381,8 @@ def correspondence(ctx) -> CorrResult:
             res.disagreements.append(Disagreement(f"cases shard {k}: unparsable output", None, out[-600:], None))
             continue
         for i in core.parse_nat_list(bodies[0]):
-            res.disagreements.append(Disagreement(f"{cs[i]['op']}:{cs[i]['kind']}", cs[i], "model result differs",
+            kwtag = f":{cs[i]['by']}" if isinstance(cs[i].get("by"), str) else ""
+            res.disagreements.append(Disagreement(f"{cs[i]['op']}:{cs[i]['kind']}{kwtag}", cs[i], "model result differs",
                                                   os_[i]))
     return res
 
